@@ -457,6 +457,71 @@ func newRenegWorld(suite uint16) *renegWorld {
 	return w
 }
 
+// keyedBadRecordScenarios: the keyed reference server has put one record into the client's inbound
+// stream that the client must refuse AFTER decrypting or authenticating it (more than 2^14 plaintext
+// bytes under correct protection; a wrong MAC; a correctly protected record of a type that is not
+// expected). The refusal sends an alert from the reading goroutine while another goroutine writes:
+// alert and data record share the write half, so whenever Write reports success the server must
+// receive and authenticate the whole message.
+func keyedBadRecordScenarios() []scenario {
+	var out []scenario
+	kinds := []struct {
+		name  string
+		craft func(q *gmref.Peer) error
+	}{
+		{"16385 plaintext bytes under correct protection", func(q *gmref.Peer) error {
+			return q.WriteRaw(gmref.RecApp, q.Seal(gmref.RecApp, make([]byte, 16385), gmref.SealOpt{}))
+		}},
+		{"wrong MAC", func(q *gmref.Peer) error {
+			return q.WriteRaw(gmref.RecApp, q.Seal(gmref.RecApp, []byte("xxxxx"), gmref.SealOpt{FlipMAC: true}))
+		}},
+		{"correctly protected ChangeCipherSpec in the data phase", func(q *gmref.Peer) error {
+			return q.WriteRaw(gmref.RecCCS, q.Seal(gmref.RecCCS, []byte{1}, gmref.SealOpt{}))
+		}},
+	}
+	for _, suite := range []uint16{gmref.SuiteAESCBC, gmref.SuiteAESGCM} {
+		for _, k := range kinds {
+			suite, k := suite, k
+			out = append(out, scenario{name: fmt.Sprintf("one-conn-refused-record-read-write/%04x/%s", suite, k.name), bound: 2, boundT: 3,
+				setup: func() interface{} {
+					w := newRenegWorld(suite)
+					if err := k.craft(w.srv); err != nil {
+						panic(err)
+					}
+					return w
+				},
+				threads: []func(interface{}) interface{}{
+					func(st interface{}) interface{} {
+						buf := make([]byte, 16)
+						n, err := st.(*renegWorld).cl.Read(buf)
+						return fmt.Sprint(n, err != nil)
+					},
+					func(st interface{}) interface{} {
+						n, err := st.(*renegWorld).cl.Write([]byte("AAAAA"))
+						return fmt.Sprint(n, err == nil)
+					},
+				},
+				accept: func(st interface{}, res []interface{}) string {
+					w := st.(*renegWorld)
+					w.cl.Close()
+					rerr := w.srv.ReadApp(5)
+					got := string(w.srv.Received)
+					if fmt.Sprint(res[0]) != "0 true" {
+						return fmt.Sprintf("Read of the refused record returned %v", res[0])
+					}
+					if fmt.Sprint(res[1]) == "5 true" && got != "AAAAA" {
+						return fmt.Sprintf("Write reported success but the keyed server received %q (then: %v)", got, rerr)
+					}
+					if got != "" && got != "AAAAA" {
+						return fmt.Sprintf("the keyed server received %q, not the written message", got)
+					}
+					return ""
+				}})
+		}
+	}
+	return out
+}
+
 func renegScenarios() []scenario {
 	var out []scenario
 	for _, suite := range []uint16{gmref.SuiteAESCBC, gmref.SuiteAESGCM} {
